@@ -291,6 +291,8 @@ CASES = [
     ('NT', 2, (3, 50), 1, ['cc'], (0, 2)),       # big-blind ante, short big blind
     ('NT', 2, (50, 2), 1, ['cc'], (0, 2)),       # big-blind ante, short small blind
     ('NT', 3, (2, 3, 50), 1, ['cc'], (0, 2, 0)),
+    ('NT', 2, (5, 1), 1, ['c'], 0),                # the forced bets alone end the betting (small blind all-in for less)
+    ('NT', 3, (50, 2, 50), 1, ['cc'], 2),          # the big blind is all-in from the ante: seat 0 is the only blind poster
     ('NT', 3, (20, 50, 50), 1, ['fRr', 'fRc']),  # a folded player keeps chips, the shover is covered
     ('F7S', 2, (3, 3), 1, ['brc', 'rc']),         # stud: everybody all-in on third street
     ('FR', 3, (3, 9, 3), 1, ['brcc']),
@@ -319,7 +321,7 @@ def _jobs(fn: str, tier: str, cover: list) -> list[dict]:
             for mode in ('C', 'T'):
                 if tier == 'quick' and mode == 'T' and script not in ('Rc', 'Rcc', 'ccc', 'cc', 'bc', 'crrc'):
                     continue
-                tag = '/stacks' + '-'.join(map(str, stacks)) + ('' if antes == 1 else '/antes' + '-'.join(map(str, antes)))
+                tag = '/stacks' + '-'.join(map(str, stacks)) + ('' if antes == 1 else '/antes' + ('-'.join(map(str, antes)) if isinstance(antes, tuple) else str(antes)))
                 out.append(dict(name=f'{code}/n{n}/{script}/{mode}{tag}', fn=fn, traced=False,
                                 params=dict(code=code, n=n, script=script, stacks=stacks, mode=mode,
                                             boards=boards, antes=antes),
